@@ -59,7 +59,22 @@ def rule_log_derivative(rep, repo):
                           points=e10._obj_array([[sp.Symbol(f"gp{i}{c}") for c in range(3)] for i in range(8)]))
             ext = {"symbols": lambda spec: sp.symbols(spec), "bell": lambda a, b, seq: e10.bell_incomplete(a, b, list(seq)),
                    "CubicSpline": e10.Cls("CubicSpline"), "RegularGridInterpolator": e10.Cls("RegularGridInterpolator")}
-            it = e10.Interp({}, ext)
+            mod_funcs = {g.name: g.node for g in repo.funcs.values()
+                         if g.module == "cubic" and g.cls is None and g.parent is None and isinstance(g.node, ast.FunctionDef)}
+            globs = {k_: v for k_, v in e10.module_globals_of(repo.modules["cubic"].tree).items() if not isinstance(v, ast.ClassDef)}
+            it = e10.Interp(mod_funcs, ext, module_globals=globs)
+
+            def resolver(name, obj=obj, it=it):
+                fdef = repo.resolve_method("_HyperRectangleGrid", name)
+                if fdef is None or not isinstance(fdef.node, ast.FunctionDef):
+                    return False, None
+                decos = {getattr(d, "id", getattr(d, "attr", None)) for d in fdef.node.decorator_list}
+                if "property" in decos:
+                    return True, it.call_def(fdef.node, [obj], {}, {})
+                if "staticmethod" in decos:
+                    return True, (lambda *a, **k2: it.call_def(fdef.node, list(a), k2, {}))
+                return True, (lambda *a, **k2: it.call_def(fdef.node, [obj] + list(a), k2, {}))
+            obj.resolver = resolver
             kw = {"use_log": True, nu_name: k}
             try:
                 out = it.call_def(f.node, [obj, P, vals], kw, {})
